@@ -11,6 +11,21 @@ use std::panic::{catch_unwind, AssertUnwindSafe};
 
 pub const IOKINDS: [io::ErrorKind; 6] =
     [io::ErrorKind::UnexpectedEof, io::ErrorKind::ConnectionReset, io::ErrorKind::TimedOut, io::ErrorKind::BrokenPipe, io::ErrorKind::WouldBlock, io::ErrorKind::Other];
+/// kinds for READ faults (the write side keeps to IOKINDS: `io::Write::write_all` retries Interrupted by contract)
+pub const READ_IOKINDS: [io::ErrorKind; 12] = [
+    io::ErrorKind::UnexpectedEof,
+    io::ErrorKind::ConnectionReset,
+    io::ErrorKind::TimedOut,
+    io::ErrorKind::BrokenPipe,
+    io::ErrorKind::WouldBlock,
+    io::ErrorKind::Other,
+    io::ErrorKind::Interrupted,
+    io::ErrorKind::PermissionDenied,
+    io::ErrorKind::ConnectionRefused,
+    io::ErrorKind::InvalidInput,
+    io::ErrorKind::NotFound,
+    io::ErrorKind::OutOfMemory,
+];
 
 fn guard<T>(rep: &mut Report, key: &str, input: &str, f: impl FnOnce() -> T) -> Option<T> {
     match catch_unwind(AssertUnwindSafe(f)) {
@@ -96,6 +111,23 @@ pub fn inputs<F: Fam>(tier: &str, seed: u64, ops: Option<&[String]>, n_quick: us
             }
         }
         packets.push(p);
+    }
+    if n > 0 {
+        // the grid: derived-length and list-count sweeps (every n-th of them when only few packets are wanted)
+        let sw = F::sweep(tier == "thorough");
+        let step = if n >= 3000 { 1 } else { 4 };
+        for (i, p) in sw.into_iter().enumerate() {
+            if i % step == 0 {
+                if want_mut {
+                    if let Ok(e) = F::encode(&p) {
+                        if e.len() < 3000 {
+                            bytes.push(e);
+                        }
+                    }
+                }
+                packets.push(p);
+            }
+        }
     }
     if want_mut {
         // frames built by hand, independently of the encoder under test: property sections in random
@@ -511,10 +543,20 @@ pub fn c07<F: Fam>(rep: &mut Report, p: &F::P, rng: &mut Rng, faults: bool) {
                 None => {}
             }
         }
-        let terms: Vec<Term> = if faults { vec![Term::Err(*rng.pick(&IOKINDS)), Term::Eof] } else { vec![Term::Eof] };
-        for term in terms {
+        let terms: Vec<Term> = if faults { vec![Term::Err(*rng.pick(&READ_IOKINDS)), Term::Err(*rng.pick(&READ_IOKINDS)), Term::Eof] } else { vec![Term::Eof] };
+        for (ti, term) in terms.into_iter().enumerate() {
             let sched = if rng.chance(1, 2) { vec![] } else { sched_for(rng, k) };
+            // the second fault of each cut is ONE-SHOT: the transport fails once and would then deliver the
+            // rest of the packet — the error must surface all the same
+            let one_shot = faults && ti == 1;
+            let arm = || {
+                if one_shot {
+                    crate::sio::AFTER_FAULT.with(|a| *a.borrow_mut() = Some(enc[k..].to_vec()));
+                }
+            };
+            arm();
             let a = guard(rep, "decode-panic", &cinput, || F::decode_async(pre, vec![], term));
+            arm();
             let pl = guard(rep, "decode-panic", &cinput, || F::poll(pre, sched.clone(), term));
             let check = |rep: &mut Report, what: &str, e: Option<&ErrInfo>, shown: String| {
                 let ok = match (term, e) {
@@ -524,7 +566,8 @@ pub fn c07<F: Fam>(rep: &mut Report, p: &F::P, rng: &mut Rng, faults: bool) {
                 };
                 if !ok {
                     let key = if faults { "fault-not-io-error" } else { "prefix-not-incomplete" };
-                    rep.fail(key, format!("{} {} {} {} {}", what, F::NAME, hex_or_dash(pre), if what == "poll" { sched_text(&sched) } else { String::new() }, term_text(term)), format!("{} decoder with the stream ending in {:?} after {} of {} bytes gave {}", what, term, k, enc.len(), shown));
+                    let tt = if one_shot { format!("{}+{}", term_text(term), hex_or_dash(&enc[k..])) } else { term_text(term) };
+                    rep.fail(key, format!("{} {} {} {} {}", what, F::NAME, hex_or_dash(pre), if what == "poll" { sched_text(&sched) } else { String::new() }, tt), format!("{} decoder with the stream {} {:?} after {} of {} bytes gave {}", what, if one_shot { "failing ONCE (the rest of the packet follows) with" } else { "ending in" }, term, k, enc.len(), shown));
                 }
             };
             if let Some((r, _)) = a {
@@ -542,7 +585,7 @@ pub fn c07<F: Fam>(rep: &mut Report, p: &F::P, rng: &mut Rng, faults: bool) {
     let mut ext = enc.clone();
     let tail: Vec<u8> = if rng.chance(1, 2) { enc.clone() } else { (0..(1 + rng.below(6))).map(|_| rng.next() as u8).collect() };
     ext.extend_from_slice(&tail);
-    let term = if faults { Term::Err(*rng.pick(&IOKINDS)) } else { Term::Eof };
+    let term = if faults { Term::Err(*rng.pick(&READ_IOKINDS)) } else { Term::Eof };
     match guard(rep, "decode-panic", &input, || (F::decode(&ext), F::decode_async(&ext, vec![], term), F::poll(&ext, sched_for(rng, ext.len()), term))) {
         Some((Ok(Some(a)), (Ok(b), n), PollOut { res: Ok((t, _, c)), .. })) if a == *p && b == *p && c == *p && n == enc.len() && t == enc.len() => {}
         Some((a, (b, n), c)) => rep.fail("trailing-bytes-matter", format!("dec {} {}", F::NAME, hex(&ext)), format!("encoding followed by more bytes: blocking {:?}, async {:?}/{}, poll {:?}", a.map(|x| x.map(|q| F::show(&q))), b.map(|q| F::show(&q)), n, c.res.map(|q| (q.0, F::show(&q.2))))),
